@@ -236,6 +236,30 @@ def wide_checks(chk, rng, found):
                     report(chk, found, c, dt, f"{name}: appending {z} all-zero columns changed the "
                            f"update of the other columns", {"A_J": base[:2], "A_Jz_head": (o[1][:3] if o[0] == 'ok' else o[:2])})
     chk.count({"wide": "zero columns 1000, 2^17"}, nontrivial=True)
+    # (c) the pseudo-inverse / eigh based aggregators (+ Mean as a control) on MODEL-SIZED Jacobians, float32:
+    # a well-conditioned and a moderately ill-conditioned (sigma ratio 6.7e-3, far above float32
+    # resolution) two-row matrix followed by 2^17 and by 9.4e6 all-zero columns.  A rank decision whose
+    # tolerance grows with the number of COLUMNS (max(m, n) * eps reaches 1 at n = 8.4e6 in float32)
+    # makes parameters that influence nothing change -- or annihilate -- the update of the others.
+    for J in ([[F(1), F(2), F(0)], [F(0), F(1), F(3)]], [[F(64), F(64), F(1)], [F(64), F(65), F(0)]]):
+        for name, p in (("ConFIG", {"pref": None}), ("ConFIG", {"pref": [F(1), F(3)]}), ("IMTLG", {}),
+                        ("AlignedMTL", {"pref": None}), ("AlignedMTL", {"pref": [F(1), F(3)]}), ("Mean", {})):
+            base = call(name, p, J, "f64")
+            for z in (2 ** 17, 2 ** 23 + 2 ** 20):
+                t = torch.zeros(2, 3 + z, dtype=torch.float32)
+                t[:, :3] = A.to_tensor(J, "f32")
+                o = A.impl_call(name, p, None, "f32", tensor=t)
+                del t
+                chk.cov["evaluations"] += 1
+                c = {"name": name, "params": p, "J": J, "cat": f"zero_columns_{z}"}
+                sc = max((abs(x) for x in base[1]), default=0.0) if base[0] == "ok" else 1.0
+                ok = (base[0] == "ok" and o[0] == "ok" and close(o[1][:3], base[1], TOL["f32"] * 2, sc) and
+                      max(abs(x) for x in o[1][3:]) <= TOL["f32"] * sc)
+                if not ok:
+                    report(chk, found, c, "f32", f"{name}: appending {z} all-zero columns changed the "
+                           f"update of the other columns (float32)",
+                           {"A_J": base[:2], "A_Jz_head": (o[1][:3] if o[0] == 'ok' else o[:2])})
+    chk.count({"wide": "zero columns 2^17, 2^23+2^20 (float32; pinv/eigh based)"}, nontrivial=True)
 
 
 def run(chk):
